@@ -140,6 +140,9 @@ reclaim('C16', 'Source tie (3 theorems, axiom-free; Properties/C16Src.v): check_
 reclaim('C11', 'Source tie (5 theorems, axiom-free; Properties/C11Src.v): bit_add/sub/and/or/xor_matches_source - per operator of the base class the guards in source order with their exception classes, the NumPy set function applied '
         'and the ORDER of its operands (setdiff1d(self, other) vs (other, self)), and the operand whose length the result takes, translated from the source text and proved equal to fp_bit_add / fp_bit_sub / fp_and / fp_or / fp_xor.',
         SRC_NOTE % ('C11', 'harness/facts_setopsrc.py', 'SetOpSource.v') + ' Trusted table: np.union1d / intersect1d / setdiff1d / setxor1d read as zunion / zinter / zdiff / zxor of Base/ZSet.v.')
+reclaim('C14', 'Source tie (5 theorems, axiom-free; Properties/C14Src.v): single_level_matches_source (every `if` test of fprints_dict_from_mol that mentions all_iters - file names, generated levels, what is saved - is the model\'s single_level: one rule used consistently), '
+        'fs_keep_matches_source (per-file rule of the saving loop), skip_all_matches_source, conf_loop_stop/continue_matches_source (the conformer cut-off `j == first`).',
+        SRC_NOTE % ('C14', 'harness/facts_gensrc.py', 'GenerateSource.v') + ' Atoms all_iters, overwrite, all_files_exist, os.path.isfile(filenames[i]) are matched as exact text.')
 reclaim('C15', 'Histories with a pre-existing database file: outputs of one molecule lost while the database of an earlier run is still in place (re-run twice), and the same batch run four times into the same db_file in database-only mode (three input orders, with and without overwrite): the named fingerprints must not depend on what an earlier run left in db_file.', None)
 reclaim('C16', 'Batches of 1100 / 4200 / 9000 (thorough: up to 70000) fingerprints with one faulty member at the last and at a late position (length, level, missing property, sequence-valued property), on a deep copy of the target: slice-wise validation or commit is refused too late.', None)
 reclaim('C01', 'Search streams added after seeded rounds 3-4: all 24 (48 with stereo off) signed axis permutations - exact in floating point - of flat and gridded molecules run on the implementation; molecules scaled so that one '
